@@ -30,7 +30,9 @@ def concretize(prop, ob):
     out = []
     kinds = [k for k in ("str", "Path", "file", "BytesIO") if case.startswith(k)]
     if fn in ("Stream.__init__", "FileHashStore._store_and_validate_data",
-              "FileHashStore._store_data_only", "FileHashStore._put_metadata") and kinds:
+              "FileHashStore._store_data_only", "FileHashStore._put_metadata",
+              "FileHashStore._write_to_tmp_file_and_get_hex_digests",
+              "FileHashStore._mktmpmetadata") and kinds:
         out.append(("store_roundtrip", {"kind": kinds[0], "offset": max(0, model.get("stream_pos0", 0) or 0) % 4}))
     if fn == "FileHashStore.store_object" and kinds and "post/outcome" in name:
         out.append(("store_roundtrip", {"kind": kinds[0]}))
@@ -64,6 +66,9 @@ def concretize(prop, ob):
                                             "-obj_size={size}"], "expect_bound": "cli-pid"}))
     if "directories-are-never-removed" in name:
         out.append(("race_store_meta_delete_all", {}))
+    if short_name(fn) in ("_computehash", "_get_hashstore_pid_refs_path", "_check_string") \
+            or "path/" in name:
+        out.append(("identifier_pool", {}))
     if short_name(fn) in ("get_hex_digest", "_computehash") or (prop == "C02" and "post/" in name
                                                                  and "store_object" not in fn):
         out.append(("digest_history", {}))
@@ -107,7 +112,7 @@ def concretize(prop, ob):
         out.append(("reject_matrix", {}))
     if prop == "C20" and name.startswith("main/"):
         out.append(("client_matrix", {}))
-    if prop == "C14" or short0 in ("_verify_hashstore_properties", "_validate_properties",
+    if prop == "C14" or name.startswith("memo/") or short0 in ("_verify_hashstore_properties", "_validate_properties",
                                    "_write_properties", "__init__"):
         out.append(("config_matrix", {}))
     # last resort for the reference / object / metadata layer: bounded search for a failing call
@@ -120,8 +125,14 @@ def concretize(prop, ob):
     METALAYER = ("store_metadata", "delete_metadata", "retrieve_metadata", "_put_metadata",
                  "_mktmpmetadata")
     short = fn.split(".")[-1]
+    if short == "_update_refs_file":
+        out.append(("refs_helper_pool", {}))
     if short in REFLAYER or name.startswith("lemma/"):
         out.append(("model_sweep", {"length": 3, "focus": ["tag", "delete", "store"]}))
+    if short in METALAYER:
+        out.append(("model_sweep", {"length": 3, "metadata": True, "no_objects": True,
+                                    "explicit_default": True, "focus": ["dmeta"],
+                                    "pids": ["pid-a", "pid-b"]}))
     if short in METALAYER or short == "delete_object":
         out.append(("model_sweep", {"length": 3, "metadata": True, "focus": ["smeta", "dmeta"],
                                     "pids": ["pid-a", "pid-b"]}))
